@@ -132,6 +132,10 @@ class Ast:
         for c in crates:
             self.crates[c] = json.load(open(os.path.join(facts_dir, c + ".ast.json")))["items"]
         self._raw = {}
+        from . import machine as _mc
+        from . import flat as _fl
+        _fl.set_ret_family(self.crates.values())
+        _mc.set_universe([[v["name"] for v in it.get("variants", [])] for items in self.crates.values() for it in items if it.get("k") == "Enum"])
 
     def raw(self, relpath):
         if relpath not in self._raw:
